@@ -14,38 +14,60 @@ ASSUMPTIONS = [
     "statistics are recomputed by the oracle on X[b_i:b_{i+1}] with the same callable; bounds are generated around the data's segment statistics so that boundary comparisons occur",
 ]
 
-STATS = ["np.mean", "np.median", "np.max", "range", "second_smallest"]
+STATS = ["np.mean", "np.median", "np.max", "range", "second_smallest", "first", "last", "method_std"]
+
+
+@st.composite
+def inner_spec(draw, inner, n=None):
+    if inner == "FixedChangeDetector":
+        if n is None:
+            n = draw(st.integers(2, 40))
+        k = draw(st.integers(0, min(6, n - 1)))
+        cpts = sorted(draw(st.lists(st.integers(1, n - 1), min_size=k, max_size=k, unique=True)))
+        return {"cls": "FixedChangeDetector", "changepoints": cpts}, n
+    ip, n_min = draw(K.detector_params(inner, 1, max_msl=3, max_bw=4, allow_cov=False))
+    return dict(cls=inner, **ip), n_min
 
 
 @st.composite
 def cases(draw, tier):
+    # all structural choices first, the bulk data last (see strategies/data.py)
     inner = draw(st.sampled_from(["FixedChangeDetector", "FixedChangeDetector", "PELT", "MovingWindow", "SeededBinarySegmentation"]))
-    if inner == "FixedChangeDetector":
-        n = draw(st.integers(2, 40))
-        k = draw(st.integers(0, min(6, n - 1)))
-        cpts = sorted(draw(st.lists(st.integers(1, n - 1), min_size=k, max_size=k, unique=True)))
-        ispec = {"cls": "FixedChangeDetector", "changepoints": cpts}
-    else:
-        ip, n_min = draw(K.detector_params(inner, 1, max_msl=3, max_bw=4, allow_cov=False))
-        n = draw(st.integers(n_min, max(n_min, 40)))
-        ispec = dict(cls=inner, **ip)
+    ispec, n = draw(inner_spec(inner))
+    if inner != "FixedChangeDetector":
+        n = draw(st.integers(n, max(n, 40)))
+    stat = draw(st.sampled_from(STATS))
+    lo_sel = (draw(st.booleans()), draw(st.integers(0, 8)), draw(st.floats(-15, 15, allow_nan=False)))
+    hi_sel = (draw(st.booleans()), draw(st.integers(0, 8)), draw(st.floats(0, 20, allow_nan=False)))
+    container = draw(st.sampled_from(["DataFrame", "Series", "ndarray1d", "ndarray2d"]))
+    index = draw(D.index_spec())
+    npre = draw(st.integers(max(n, 8), 40)) if draw(st.integers(0, 3)) == 0 else None
+    # what happens after the first fit / predict on the same anomaliser object
+    second = draw(st.sampled_from([None, "set_params_refit", "refill_predict", "refill_refit", None]))
+    ispec2 = None
+    if second == "set_params_refit":
+        ispec2, n2_min = draw(inner_spec(inner, n if inner == "FixedChangeDetector" else None))
+        if inner != "FixedChangeDetector" and n2_min > n:
+            second, ispec2 = None, None
     X, _ = draw(D.structured_matrix(n, 1, max_shifts=4, max_spikes=1, max_bumps=1))
     x = [row[0] for row in X]
-    stat = draw(st.sampled_from(STATS))
+    x2 = None
+    if second in ("refill_predict", "refill_refit"):
+        X2, _ = draw(D.structured_matrix(n, 1, max_shifts=4, max_spikes=1, max_bumps=1))
+        x2 = [row[0] for row in X2]
     # bounds around the statistics of the data so that both flagged and unflagged segments occur
     pool = sorted(set([min(x), max(x), float(np.mean(x)), float(np.median(x)), 0.0] + x[:4]))
-    lo = draw(st.one_of(st.sampled_from(pool), st.floats(-15, 15, allow_nan=False)))
-    hi = draw(st.one_of(st.sampled_from([v for v in pool if v >= lo] or [lo]), st.floats(0, 20, allow_nan=False).map(lambda d: lo + d)))
+    lo = pool[lo_sel[1] % len(pool)] if lo_sel[0] else lo_sel[2]
+    above = [v for v in pool if v >= lo] or [lo]
+    hi = above[hi_sel[1] % len(above)] if hi_sel[0] else lo + hi_sel[2]
     prefit = None
-    if draw(st.integers(0, 3)) == 0:
+    if npre is not None:
         # the user may pass a detector that is already fitted (on other data): a clone must still be
         # fitted on the anomaliser's own training data and the user's object must stay as it is
-        npre = draw(st.integers(max(n, 8), 40))
         Xp, _ = draw(D.structured_matrix(npre, 1, max_shifts=2, max_spikes=1, max_bumps=0))
         prefit = [row[0] * 3.0 for row in Xp]
-    return {"inner": ispec, "stat": stat, "lo": lo, "hi": hi, "x": x, "prefit": prefit,
-            "container": draw(st.sampled_from(["DataFrame", "Series", "ndarray1d", "ndarray2d"])),
-            "index": draw(D.index_spec())}
+    return {"inner": ispec, "stat": stat, "lo": lo, "hi": hi, "x": x, "prefit": prefit, "container": container, "index": index,
+            "second": second, "inner2": ispec2, "x2": x2}
 
 
 def to_container(x, container, index_spec):
@@ -97,25 +119,52 @@ def check(case):
             raise Violation("the anomaliser uses the user's detector object itself instead of a clone")
     if repr(sorted(user_det.get_params(deep=True).items(), key=lambda kv: kv[0])) != params_before:
         raise Violation("the wrapped detector's hyper-parameters were altered", inner=case["inner"])
-    # reference model
-    with sut("clone of the wrapped detector fit/predict"):
-        ref_det = user_det.clone().fit(Xc)
-        cpts = [int(v) for v in ref_det.predict(Xc)["ilocs"].tolist()]
-    bounds = [0] + cpts + [n]
-    want = []
-    near_boundary = False
-    for a, b in zip(bounds[:-1], bounds[1:]):
-        v = float(stat(x[a:b]))
-        if v < case["lo"] or v > case["hi"]:
-            want.append((a, b))
-        if v in (case["lo"], case["hi"]):
-            near_boundary = True
-    info = K.check_wellformed("StatThresholdAnomaliser", {}, n, 1, y)
-    got = info["events"]
-    if got != want:
-        raise Violation("reported anomalies are not exactly the out-of-range segments of the wrapped detector's segmentation",
-                        changepoints=cpts, expected=[list(e) for e in want], got=[list(e) for e in got],
-                        stat=case["stat"], lo=case["lo"], hi=case["hi"])
+    def expected(train, test):
+        """Reference model: out-of-range segments of the segmentation found by a clone of the user's detector (as it
+        is now) fitted on `train` and applied to `test` (plain copies of the numbers)."""
+        with sut("clone of the wrapped detector fit/predict"):
+            ref_det = user_det.clone().fit(np.asarray(train, dtype=float).reshape(-1, 1))
+            cpts = [int(v) for v in ref_det.predict(np.asarray(test, dtype=float).reshape(-1, 1))["ilocs"].tolist()]
+        bounds = [0] + cpts + [len(test)]
+        want, near = [], False
+        for a, b in zip(bounds[:-1], bounds[1:]):
+            v = float(stat(np.asarray(test, dtype=float)[a:b]))
+            if v < case["lo"] or v > case["hi"]:
+                want.append((a, b))
+            if v in (case["lo"], case["hi"]):
+                near = True
+        return want, near, cpts, bounds
+
+    def compare(y, want, cpts, what):
+        got = K.check_wellformed("StatThresholdAnomaliser", {}, n, 1, y)["events"]
+        if got != want:
+            raise Violation(f"{what}reported anomalies are not exactly the out-of-range segments of the wrapped detector's segmentation",
+                            changepoints=cpts, expected=[list(e) for e in want], got=[list(e) for e in got],
+                            stat=case["stat"], lo=case["lo"], hi=case["hi"])
+
+    want, near_boundary, cpts, bounds = expected(x, x)
+    compare(y, want, cpts, "")
+    second = case.get("second")
+    if second == "set_params_refit":
+        # the user re-configures the detector they passed in and fits the anomaliser again
+        with sut("set_params on the user's detector, then StatThresholdAnomaliser.fit/predict again"):
+            user_det.set_params(**K.build(case["inner2"]).get_params(deep=False))
+            y2 = det.fit(Xc).predict(Xc)
+        want2, _, cpts2, _ = expected(x, x)
+        compare(y2, want2, cpts2, "after set_params on the wrapped detector and a new fit: ")
+    elif second in ("refill_predict", "refill_refit"):
+        # the caller's buffer is refilled in place with the next batch
+        x2 = np.asarray(case["x2"], dtype=float)
+        if isinstance(Xc, np.ndarray):
+            Xc[...] = x2.reshape(Xc.shape)
+        else:
+            Xc.iloc[:] = x2 if Xc.ndim == 1 else x2.reshape(-1, 1)
+        with sut("StatThresholdAnomaliser on the refilled buffer"):
+            if second == "refill_refit":
+                det.fit(Xc)
+            y2 = det.predict(Xc)
+        want2, _, cpts2, _ = expected(x2 if second == "refill_refit" else x, x2)
+        compare(y2, want2, cpts2, "buffer refilled in place: ")
     classes = [f"inner={case['inner']['cls']}", f"container={case['container']}", f"stat={case['stat']}"]
     if prefit is not None:
         classes.append("user_detector_already_fitted")
@@ -125,14 +174,17 @@ def check(case):
         classes.append("mixed_flagged_and_normal")
     if near_boundary:
         classes.append("statistic_equals_a_bound")
+    if second:
+        classes.append(f"second={second}")
     return {"nontrivial": bool(want), "classes": classes}
 
 
 FACETS = [
     Facet(name="flagged_segments", check=check, strategy=cases,
           rule=("wrapped detector in {user-defined FixedChangeDetector with generated changepoints, PELT, MovingWindow, "
-                "SeededBinarySegmentation with generated settings}, stat in {mean, median, max, range, second smallest (user "
+                "SeededBinarySegmentation with generated settings}, stat in {mean, median, max, range, second smallest, first, last, x.std() (user "
                 "functions)}, bounds lo<=hi drawn from the data's own statistics or floats, univariate data as 2-D/1-D ndarray, "
-                "Series or DataFrame with generated index; non-trivial = >= 1 flagged segment"),
+                "Series or DataFrame with generated index; optionally followed, on the same anomaliser, by set_params on the user's detector + a new fit, "
+                "or by predict / fit+predict after the caller's buffer was refilled in place; non-trivial = >= 1 flagged segment"),
           n_quick=800, n_thorough=8000, shards_quick=8, shards_thorough=16),
 ]
